@@ -214,6 +214,10 @@ impl Buildpack for TestBuildpack {
         let mut r = BuildResultBuilder::new();
         if b["launch"].as_bool().unwrap_or(false) {
             r = r.launch(LaunchBuilder::new().build());
+        } else if b["launch"].as_str() == Some("repeated-process-types") {
+            use libcnb::data::launch::{Label, ProcessBuilder};
+            let p = |t: &str, c: &str| ProcessBuilder::new(t.parse().unwrap(), [c]).build();
+            r = r.launch(LaunchBuilder::new().label(Label { key: "k".into(), value: "v".into() }).process(p("web", "generic")).process(p("worker", "w")).process(p("web", "specific")).build());
         }
         match b["store"].as_str().unwrap_or("none") {
             "empty" => r = r.store(Store::default()),
